@@ -290,7 +290,7 @@ class EIO(Engine):
         want = bits_to_bytes(bits)
         plan = ev.get('plan')
         w = SimWriter(plan)
-        pos_before = getattr(obj, '_pos', None)
+        pos_before = (kernel.get_pos(obj) if kernel.is_stream(obj) else None)
         st, val = call(obj.tofile, w)
         cb = chunk // 8
         n_expected = (len(bits) + chunk - 1) // chunk
@@ -332,7 +332,7 @@ class EIO(Engine):
             exp_len = (plan['at'] - 1) * cb + (min(plan.get('keep', 0), max(w.writes[-1] - 1, 0)) if plan['kind'] == 'torn' else 0)
             if want[:len(d)] != d or len(d) != exp_len:
                 incs.append(self.inc('tofile|durable-not-the-expected-prefix', plan=plan, durable=d.hex()[:200], want=want.hex()[:200], exp_len=exp_len))
-        if self._bin(obj) != bits or getattr(obj, '_pos', None) != pos_before:
+        if self._bin(obj) != bits or (kernel.get_pos(obj) if kernel.is_stream(obj) else None) != pos_before:
             incs.append(self.inc('tofile|object-changed', plan=plan))
             self.obj = self._build_write_subject(self.cfg)
         return {'st': st, 'writes': len(w.writes), 'durable': len(w.durable)}, incs
